@@ -73,11 +73,24 @@ func runPrefetchCost(id string, parts []string) string {
 	if f["glob"] == "1" {
 		gb = burst
 	}
-	env.R.VerifC19SetLimiter(1e-4, burst, gb) // a new bucket fills from the zero time: rate x 2000 years must exceed the burst
 	if st := hx.MustAtoi(f["stagger"]); st > 0 {
 		time.Sleep(time.Duration(st) * time.Millisecond)
 	}
 	peer := netip.MustParseAddr("127.0.0.1")
+	// The environment probes every stream listener with a connection when it starts; the servers may ACCEPT (and charge)
+	// these a little later. Install the buckets, and again, until nothing has been charged for 30 ms.
+	for try := 0; ; try++ {
+		// a new bucket fills from the zero time: rate x 292 years must exceed the burst
+		env.R.VerifC19SetLimiter(1e-4, burst, gb)
+		time.Sleep(30 * time.Millisecond)
+		c, g := env.R.VerifC19Tokens(peer)
+		if math.Round(float64(burst)-c) == 0 && (gb == 0 || math.Round(float64(gb)-g) == 0) {
+			break
+		}
+		if try == 20 {
+			return "timing=bad why=buckets-never-quiet"
+		}
+	}
 	// spent so far from the bucket of an address / from the global bucket (rounded: the refill is ~1e-3 tokens)
 	spent := func(a netip.Addr) (int, int) {
 		c, g := env.R.VerifC19Tokens(a)
@@ -92,6 +105,7 @@ func runPrefetchCost(id string, parts []string) string {
 	}
 	const life = 120
 	var rs []string
+	sumPeer, sumGlob := 0, 0 // what the ops themselves took from the 127.0.0.1 bucket / the global bucket
 	for i, o := range ops {
 		c := cls[o.cl]
 		q := hx.BuildQuery(uint16(0x3000+i), c19FanName("k", i, tag), 1, 1, true)
@@ -138,6 +152,8 @@ func runPrefetchCost(id string, parts []string) string {
 		if o.kind == 'W' && rf == "fail" && up >= 2 && up <= 8 {
 			up = 1 // ONE failing exchange, re-written by the transport on stale idle connections (C14)
 		}
+		sumPeer += p1 - p0
+		sumGlob += g1 - g0
 		dc, dp, dg := "-", "=", "-"
 		if ca.IsValid() {
 			dc = fmt.Sprint(c1 - c0)
@@ -150,6 +166,11 @@ func runPrefetchCost(id string, parts []string) string {
 		}
 		rs = append(rs, fmt.Sprintf("%s:%s:%s:%s:%d", c19GMark(h), dc, dp, dg, up))
 		env.TakeQueries(key)
+	}
+	// a charge outside every op's window (between "the refresh has ended" and the next op) was caused by no op of this
+	// run — a late accept of a probe connection: the run cannot be judged
+	if p, g := spent(peer); p != sumPeer || (gb > 0 && g != sumGlob) {
+		return "timing=bad why=stray-charge"
 	}
 	// totals per bucket
 	var tok []string
